@@ -527,11 +527,11 @@ AfRefAfter(o, g0, now) ==      \* reference fields after update_reference at swa
      ELSE IF el \prec o.filter THEN [groupRef |-> o.groupRef, volRef |-> o.volRef, refTs |-> o.refTs]
      ELSE IF el \prec o.decay THEN [groupRef |-> g0, volRef |-> BDiv(o.volAcc \otimes o.reduction, 10000), refTs |-> now]
      ELSE [groupRef |-> g0, volRef |-> 0, refTs |-> now]
-AfAcc(o, ref, g) == BMin(ref.volRef ++ (BAbs(ref.groupRef -- g) \otimes 10000), o.maxAcc)
-AfAdaptiveRate(o, acc) ==
-  LET crossed == acc \otimes o.groupSize IN
-  BMin(CeilDiv(o.factor \otimes (crossed \otimes crossed), (100000 \otimes 10000) \otimes 10000), HardLimit)
-AfTotalRate(o, static, acc) == BMin(static ++ AfAdaptiveRate(o, acc), HardLimit)
+\* (WpMath!AfAccOf / AfRateOf / AfTotalOf are shared with the toy-scale model AdaptiveFee.tla)
+AfDen == (100000 \otimes 10000) \otimes 10000
+AfAcc(o, ref, g) == AfAccOf(ref.volRef, ref.groupRef, g, 10000, o.maxAcc)
+AfAdaptiveRate(o, acc) == AfRateOf(o.factor, o.groupSize, acc, AfDen, HardLimit)
+AfTotalRate(o, static, acc) == AfTotalOf(static, o.factor, o.groupSize, acc, AfDen, HardLimit)
 Clamp(x, lo, hi) == IF x \prec lo THEN lo ELSE IF hi \prec x THEN hi ELSE x
 
 C14Swap(pre, e, post) ==
